@@ -144,6 +144,7 @@ type Expect struct {
 type Scenario struct {
 	Property string         `json:"property"`
 	Seed     uint64         `json:"seed"`
+	Batch    uint64         `json:"batch,omitempty"` // the batch seed (VERIF_SEED) the scenario was generated under
 	Index    int            `json:"index"`
 	Cfg      map[string]int `json:"cfg,omitempty"`
 	Docs     []Doc          `json:"docs"`
